@@ -70,7 +70,9 @@ func Gen(t *tape.Tape, base string, o Opts) *Layout {
 		l.Top = base + "/m"
 	}
 	if l.HasMod {
-		l.Sents[l.Top+"/go.mod"] = fmt.Sprintf("module example.com/mod%d\n\ngo 1.20\n", t.Draw(3))
+		// the first line names the module; its ending varies (LF, CRLF, trailing blank) as editors leave it
+		ending := []string{"\n", "\n", "\r\n", " \n", "\n"}[t.Draw(5)]
+		l.Sents[l.Top+"/go.mod"] = fmt.Sprintf("module example.com/mod%d%s\ngo 1.20\n", t.Draw(3), ending)
 		if o.NestedMod && t.Bool(1, 3) {
 			// a nested sentinel only has to exist for source evaluation: also empty, or starting with a comment
 			l.Sents[l.Top+"/inner/go.mod"] = []string{"module example.com/inner\n", "", "// nested module\nmodule example.com/inner\n", "module example.com/inner\n"}[t.Draw(4)]
